@@ -388,7 +388,7 @@ def verdict(prop, tier, seed, dumps, problems, wall, nshards):
     replays = []
     if mon.nviol:
         status = 1
-        os.makedirs(os.path.join(boot.VERIF, "replays"), exist_ok=True)
+        os.makedirs(os.path.join(boot.OUT, "replays"), exist_ok=True)
         seen = set()
         for ev in mon.events:
             if ev["monitor"] in seen:
@@ -396,7 +396,7 @@ def verdict(prop, tier, seed, dumps, problems, wall, nshards):
             seen.add(ev["monitor"])
             rel = os.path.join("replays", "%s-%s-seed%d-%s.json" % (
                 prop, "".join(ch if ch.isalnum() else "_" for ch in ev["monitor"])[:60], seed, tier))
-            with open(os.path.join(boot.VERIF, rel), "w") as fh:
+            with open(os.path.join(boot.OUT, rel), "w") as fh:
                 json.dump({"property": prop, "tier": tier, "seed": seed, "event": ev}, fh, indent=1)
             replays.append(rel)
             lines.append("VIOLATION property=%s replay=%s" % (prop, rel))
@@ -408,7 +408,10 @@ def verdict(prop, tier, seed, dumps, problems, wall, nshards):
     for fid in findings.open_ids(prop):
         f = findings.describe(fid)
         n = mon.known.get(fid, {}).get("count", 0)
-        lines.append("KNOWN-FINDING: property=%s %s %s (observed %d times in this run)" % (prop, fid, f["what_fails"], n))
+        if n:
+            lines.append("KNOWN-FINDING: property=%s %s %s (observed %d times in this run)" % (prop, fid, f["what_fails"], n))
+        else:
+            lines.append("  listed finding %s was not observed in this run" % fid)
 
     total_oracle = sum(st[0] for st in mon.stats.values())
     coverage = {
@@ -440,8 +443,8 @@ def verdict(prop, tier, seed, dumps, problems, wall, nshards):
     ev = {"property_id": prop, "tier": tier, "seed": seed, "level": "exploration",
           "coverage": coverage, "assumptions": mod_meta.get("ASSUMPTIONS") or [],
           "wall_s": round(wall, 3), "violations": mon.nviol}
-    os.makedirs(os.path.join(boot.VERIF, "evidence"), exist_ok=True)
-    with open(os.path.join(boot.VERIF, "evidence", "%s.json" % prop), "w") as fh:
+    os.makedirs(os.path.join(boot.OUT, "evidence"), exist_ok=True)
+    with open(os.path.join(boot.OUT, "evidence", "%s.json" % prop), "w") as fh:
         json.dump(ev, fh, indent=1, sort_keys=False)
         fh.write("\n")
 
